@@ -195,14 +195,25 @@ double Gamma(double x)
 	return std::tgamma(x);
 }
 
+// Gamma(s) * fraction for a regularized fraction in [0,1], without forming inf * 0 or inf * tiny where Gamma(s) overflows.
+static double Gamma_Times_Fraction(double s, double fraction)
+{
+	if(fraction == 0.0)
+		return 0.0;
+	double gamma = Gamma(s);
+	if(std::isinf(gamma))
+		return exp(GammaLn(s) + log(fraction));
+	return gamma * fraction;
+}
+
 double Upper_Incomplete_Gamma(double x, double s)
 {
-	return Gamma(s) * GammaQ(x, s);
+	return Gamma_Times_Fraction(s, GammaQ(x, s));
 }
 
 double Lower_Incomplete_Gamma(double x, double s)
 {
-	return Gamma(s) * GammaP(x, s);
+	return Gamma_Times_Fraction(s, GammaP(x, s));
 }
 
 // Q(x,a) via integration;
